@@ -333,7 +333,7 @@ func (h *Hist) randomEvent() string {
 				n.Taints = append(n.Taints, WTaint{Key: escKey, Effect: "NoSchedule", Rel: true, Ago: []int64{soft + 1, hard + 1, 2 * hard}[r.intn(3)]})
 			}
 			if r.chance(70) {
-				n.Annotations[noDeleteKey] = r.pick("true", "keep", "x", "")
+				n.Annotations[noDeleteKey] = r.pick("true", "keep", "x", "", "false", "0", "f", "no", "FALSE")
 			}
 		}
 		return "annot-burst"
@@ -379,7 +379,7 @@ func (h *Hist) randomEvent() string {
 			if _, ok := n.Annotations[noDeleteKey]; ok && r.chance(50) {
 				delete(n.Annotations, noDeleteKey)
 			} else {
-				n.Annotations[noDeleteKey] = r.pick("true", "", "keep", "false")
+				n.Annotations[noDeleteKey] = r.pick("true", "", "keep", "false", "0", "F", "1", "no")
 			}
 			return "annotate"
 		}
@@ -555,6 +555,9 @@ func (h *Hist) runHistory(scans int) (bool, string) {
 			if h.r.chance(10) {
 				faults[0] = true // the refresh itself (costs 5 s of real sleep per retry)
 			}
+		}
+		if slowOK && focus == "cooldown" && h.r.chance(35) {
+			faults[0] = true // credentials refresh fails inside (or outside) a cool-down: the provider is rebuilt
 		}
 		if h.r.chance(10) {
 			for _, n := range h.api {
